@@ -10,6 +10,7 @@ import (
 	"fmt"
 	"math/rand"
 	"strings"
+	"sync"
 	"time"
 
 	"github.com/relex/gotils/logger"
@@ -241,11 +242,109 @@ func (p *pipeComp) Impl(c Case) []string {
 				}
 			}
 			out[i] = a
+		case "pipex race":
+			out[i] = pipeConfigRace(int(o.Ints[0]), int(o.Ints[1]))
+		case "pipex appended":
+			out[i] = pipeAppendedField()
 		default:
 			out[i] = "bad-op"
 		}
 	}
 	return out
+}
+
+// pipeConfigRace: one configuration object creates the transforms of every pipeline and every connection, each running on
+// its own goroutine: nothing mutable may be shared through the configuration.
+func pipeConfigRace(workers, iters int) (res string) {
+	defer func() {
+		if r := recover(); r != nil {
+			res = "panic " + panicKind(r)
+		}
+	}()
+	transform.Register()
+	schema := base.MustNewLogSchema([]string{"f0", "f1", "f2", "f3"})
+	var holders []bconfig.LogTransformConfigHolder
+	yamlText := "- type: addFields\n  fields:\n    f1: \"${f0}:mid:${f2}\"\n    f3: \"<${f2}|${f0}>\"\n"
+	if e := util.UnmarshalYamlString(yamlText, &holders); e != nil {
+		return "reject " + e.Error()
+	}
+	if e := bsupport.VerifyTransformConfigs(holders, schema, "steps"); e != nil {
+		return "reject " + e.Error()
+	}
+	var wg sync.WaitGroup
+	bad := make([]int, workers)
+	first := make([]string, workers)
+	start := make(chan struct{})
+	for w := 0; w < workers; w++ {
+		reg, _ := btest.NewStubLogCustomCounterRegistry()
+		tfs := bsupport.NewTransformsFromConfig(holders, schema, logger.WithField("verif", "pipe-race"), reg) // same config objects
+		wg.Add(1)
+		go func(w int, tfs []base.LogTransformFunc) {
+			defer wg.Done()
+			defer func() {
+				if r := recover(); r != nil {
+					bad[w]++
+					first[w] = "panic " + panicKind(r)
+				}
+			}()
+			<-start
+			for it := 0; it < iters; it++ {
+				a := fmt.Sprintf("w%dn%d%s", w, it, strings.Repeat(string(rune('a'+w)), 1+it%40))
+				b := fmt.Sprintf("z%d", w)
+				rec := schema.NewTestRecord1(base.LogFields{a, "", b, ""})
+				bsupport.RunTransforms(rec, tfs)
+				if rec.Fields[1] != a+":mid:"+b || rec.Fields[3] != "<"+b+"|"+a+">" {
+					bad[w]++
+					if first[w] == "" {
+						first[w] = fmt.Sprintf("f1=%q f3=%q for f0=%q f2=%q", rec.Fields[1], rec.Fields[3], a, b)
+					}
+				}
+			}
+		}(w, tfs)
+	}
+	close(start)
+	wg.Wait()
+	total, f := 0, ""
+	for w := range bad {
+		total += bad[w]
+		if f == "" {
+			f = first[w]
+		}
+	}
+	if total > 0 {
+		return fmt.Sprintf("race BAD=%d %s", total, strings.ReplaceAll(f, " ", "_"))
+	}
+	return "race ok"
+}
+
+// pipeAppendedField: the allocator outlives a reload that appends schema fields (run/reloader.go): a released record must be
+// clear in every field, whatever schema the allocator was created with.
+func pipeAppendedField() (res string) {
+	defer func() {
+		if r := recover(); r != nil {
+			res = "panic " + panicKind(r)
+		}
+	}()
+	oldSchema := base.MustNewLogSchema([]string{"a", "b"})
+	alloc := base.NewLogAllocator(oldSchema, 1)
+	stale := 0
+	for k := 0; k < 50; k++ {
+		rec, _ := alloc.NewRecord([]byte("first record of the new configuration"))
+		for len(rec.Fields) < 3 {
+			rec.Fields = append(rec.Fields, "")
+		}
+		rec.Fields[0], rec.Fields[1], rec.Fields[2] = "x", "y", fmt.Sprintf("seen-%d", k) // field 2 was appended by the reload
+		alloc.Release(rec)
+		rec2, _ := alloc.NewRecord([]byte("a record that does not set the appended field"))
+		if len(rec2.Fields) > 2 && rec2.Fields[2] != "" {
+			stale++
+		}
+		alloc.Release(rec2)
+	}
+	if stale > 0 {
+		return fmt.Sprintf("appended BAD=%d", stale)
+	}
+	return "appended ok"
 }
 
 func onlyFullDrops(y string) bool {
@@ -265,6 +364,10 @@ func (p *pipeComp) Oracle(c Case, impl []string) string {
 		switch {
 		case strings.HasPrefix(impl[i], "panic"):
 			return fmt.Sprintf("[key=pipe-panic] %s on line %q", impl[i], trunc120(string(firstBytes(o))))
+		case strings.HasPrefix(impl[i], "race BAD="):
+			return "[key=pipe-config-race] transforms created from one configuration object and run on their own goroutines produce each other's values: " + trunc120(impl[i])
+		case strings.HasPrefix(impl[i], "appended BAD="):
+			return "[key=pipe-appended-field] a field appended to the schema by a reload keeps the value of the record that used the pooled object before: " + impl[i]
 		case strings.HasPrefix(impl[i], "ISOLATION-DIFF"):
 			return "[key=pipe-isolation] the output of a record depends on the records before it: " + trunc120(impl[i])
 		case o.Meta == "sentinel" && !strings.HasPrefix(impl[i], "sent "):
@@ -331,6 +434,8 @@ func (p *pipeComp) Generate(rng *rand.Rand, n int, emit func(Case)) {
 		}
 		emit(Case{Ops: ops, Tag: "length-classes"})
 	}
+	emit(Case{Ops: []Op{{Name: "pipex race", Ints: []int64{8, 20000}}}, Tag: "config-race"})
+	emit(Case{Ops: []Op{{Name: "pipex appended"}}, Tag: "appended-field"})
 	for i := 0; i < n/10; i++ {
 		// program: copy syslog fields into the generator's fields, then generated steps
 		copyStep := xStep{kind: "add"}
